@@ -139,6 +139,9 @@ def run(prop, root=None, jobs=16):
             summary["silent"] += 1
         elif status == "skip":
             summary["skipped"] += 1
+        elif status == "undecided" and kind == "refactors":
+            # the rules say "construct not recognised" (exit 2) on this refactoring: not an alarm, recorded as a limitation
+            summary["refactor_undecided"] = summary.get("refactor_undecided", 0) + 1
         else:
             fails.append("%s %s/%s -> %s (%s)" % (kind, prop, name, status, msg))
     return summary, fails
@@ -152,5 +155,8 @@ if __name__ == "__main__":
         print(p, {k: v for k, v in s.items() if k != "details"})
         for x in f:
             print("   ", x[:260])
+        for d in s.get("details", []):
+            if d["result"] == "undecided" and d["set"] == "refactors":
+                print("    note: refactors %s/%s undecided (%s)" % (p, d["name"], d["report"][:150]))
         bad += len(f)
     sys.exit(1 if bad else 0)
